@@ -1043,6 +1043,14 @@ def c12(tier):
     client_replay(v, "C12", behs, "sender(cover)", {"C12", "C02"})
     behs = client_behaviours(v, "SenderSpec", 4 if not thorough else 5, 2, "paths")
     client_replay(v, "C12", behs, "sender(paths)", {"C12", "C02"})
+    # many requests outstanding: long random behaviours (TLC -simulate), the ack queues grow while their heads have moved
+    cfg = CLIENT_CFG % dict(spec="ManySpec", depth=120 if not thorough else 200, maxreq=60, dev="FALSE", emit="EmitMany", view="")
+    r = core.run_tlc("MCClient", cfg, workers=8, timeout=900, simulate=3 if not thorough else 30, depth=(120 if not thorough else 200) + 3, tlc_seed=core.seed())
+    v.tlc("ManySpec(simulation)", r)
+    behs = core.behaviours(r.lines)
+    if not behs:
+        raise Infra("ManySpec simulation produced no behaviours")
+    client_replay(v, "C12", behs, "many-outstanding(simulation)", {"C12", "C02"})
     # schedules of the named deviation: the acknowledgement is processed while the sending call is held
     # at the yield point between write and register
     behs = client_behaviours(v, "DevSpec", 4 if not thorough else 5, 2, "paths", dev="TRUE")
